@@ -178,6 +178,9 @@ func (f *upstreamLimiter) syncLocalFlowControls(flowControls proxyv1alpha1.FlowC
 		if !ok {
 			// flow control is not created or type changed
 			fc = remote.NewFlowControlCache(f.cluster, newSchema.Name, f.clientID, f.globalCounterProvider)
+			// configure the flow control before it is published: a request that loads
+			// it in between would call the limiter that does not exist yet
+			fc.LocalFlowControl().Sync(newSchema)
 			f.flowControls.Store(newSchema.Name, fc)
 		}
 		fc.LocalFlowControl().Sync(newSchema)
